@@ -57,7 +57,9 @@ CONSTANTS PgSize,        \* units per page
           PgGroup,       \* pages requested from the OS at once (at least)
           MixedPgGroup,  \* minimum pages of a mixed section
           MaxPages,      \* bound of the model: the heap never exceeds this
-          ReqSizes, Codes, PtrFreeCodes, Tags, NRoots, MaxLive, MaxOps
+          ReqSizes, Codes, PtrFreeCodes, Tags, NRoots, MaxLive, MaxOps,
+          GraphOps,      \* FALSE: no pointer fields, roots, recode, fill (deeper allocator histories)
+          Probe          \* a step label whose reachability ProbeInv tests ("none" otherwise)
 
 VARIABLES s,      \* allocator state (record, see SInit)
           cl,     \* client data: user address -> [req, tag, slots]
@@ -439,8 +441,28 @@ Init == /\ s = SInit
         /\ cl = <<>>
         /\ roots = [k \in 1..NRoots |-> Null]
         /\ last = <<"Init", Null>>
-        /\ wit = [op |-> "Init"]
+        /\ wit = [op |-> "Init", tags |-> {}]
         /\ ops = 0
+
+(* labels of the sub-cases taken, for the reachability probes (non-vacuity) *)
+FreeLabel(st, a) ==
+    LET sp == SectFor(st, a) IN
+    IF st.sects[sp].fixed THEN "free:fixed"
+    ELSE LET pc == a - MxHead
+             p0 == MxPrev(st, pc)
+             n0 == MxNext(st, pc)
+             mp == p0 # Null /\ st.mx[p0].free
+             mn == n0 # Null /\ st.mx[n0].free
+         IN IF mp /\ mn THEN "free:mixed-merge-both" ELSE IF mp THEN "free:mixed-merge-prev"
+            ELSE IF mn THEN "free:mixed-merge-next" ELSE "free:mixed-merge-none"
+CollectLabels(st0, st1) ==
+    LET gone == Busy(st0) \ Busy(st1) IN
+    {IF gone = {} THEN "collect:nothing-reclaimed"
+     ELSE IF Busy(st1) = {} THEN "collect:all-reclaimed" ELSE "collect:some-reclaimed-some-kept"}
+    \cup (IF \E sp \in DOMAIN st0.sects : sp \notin DOMAIN st1.sects /\ st0.sects[sp].fixed
+          THEN {"collect:fixed-section-returned"} ELSE {})
+    \cup (IF \E sp \in DOMAIN st0.sects : sp \notin DOMAIN st1.sects /\ ~st0.sects[sp].fixed
+          THEN {"collect:mixed-section-returned"} ELSE {})
 
 Targets == {Null} \cup DOMAIN cl \cup {a + 1 : a \in {b \in DOMAIN cl : cl[b].req >= 2}}
 
@@ -451,7 +473,7 @@ IAlloc == \E c \in Codes, n \in ReqSizes, t \in Tags :
     /\ s' = r.st
     /\ cl' = Upd(cl, r.a, [req |-> n, tag |-> t, slots |-> SlotsFor(n)])
     /\ last' = <<"Alloc", r.a>>
-    /\ wit' = [op |-> "Alloc", c |-> c, n |-> n, a |-> r.a, sz |-> r.size, t |-> t, path |-> r.path]
+    /\ wit' = [op |-> "Alloc", c |-> c, n |-> n, a |-> r.a, sz |-> r.size, t |-> t, tags |-> {r.path}]
     /\ ops' = ops + 1 /\ UNCHANGED roots
 
 IFree == \E a \in DOMAIN cl :
@@ -460,7 +482,7 @@ IFree == \E a \in DOMAIN cl :
     /\ s' = st1
     /\ cl' = Del(cl, {a})
     /\ last' = <<"Free", a>>
-    /\ wit' = [op |-> "Free", a |-> a]
+    /\ wit' = [op |-> "Free", a |-> a, tags |-> {FreeLabel(s, a)}]
     /\ ops' = ops + 1 /\ UNCHANGED roots
 
 IResize == \E a \in DOMAIN cl, n \in ReqSizes :
@@ -471,35 +493,36 @@ IResize == \E a \in DOMAIN cl, n \in ReqSizes :
     /\ cl' = Upd(Del(cl, {a}), r.b, [req |-> n, tag |-> cl[a].tag,
                                      slots |-> IF n >= 2 THEN (IF cl[a].slots = <<>> THEN <<Null>> ELSE cl[a].slots) ELSE <<>>])
     /\ last' = <<"Resize", r.b>>
-    /\ wit' = [op |-> "Resize", a |-> a, n |-> n, b |-> r.b, sz |-> r.size, c |-> CodeOf(r.st, r.b), path |-> r.path]
+    /\ wit' = [op |-> "Resize", a |-> a, n |-> n, b |-> r.b, sz |-> r.size, c |-> CodeOf(r.st, r.b),
+                tags |-> IF r.b = a THEN {r.path} ELSE {"resize:move", r.path}]
     /\ ops' = ops + 1 /\ UNCHANGED roots
 
-IRecode == \E a \in DOMAIN cl, c \in Codes :
+IRecode == GraphOps /\ \E a \in DOMAIN cl, c \in Codes :
     /\ ops < MaxOps /\ c # CodeOf(s, a)
     /\ s' = StoRecode(s, a, c)
     /\ last' = <<"Recode", a>>
-    /\ wit' = [op |-> "Recode", a |-> a, c |-> c]
+    /\ wit' = [op |-> "Recode", a |-> a, c |-> c, tags |-> {"recode"}]
     /\ ops' = ops + 1 /\ UNCHANGED <<cl, roots>>
 
-IFill == \E a \in DOMAIN cl, t \in Tags :
+IFill == GraphOps /\ \E a \in DOMAIN cl, t \in Tags :
     /\ ops < MaxOps /\ t # cl[a].tag
     /\ cl' = [cl EXCEPT ![a].tag = t]
     /\ last' = <<"Fill", a>>
-    /\ wit' = [op |-> "Fill", a |-> a, t |-> t]
+    /\ wit' = [op |-> "Fill", a |-> a, t |-> t, tags |-> {"fill"}]
     /\ ops' = ops + 1 /\ UNCHANGED <<s, roots>>
 
-IWrite == \E a \in DOMAIN cl, x \in Targets :
+IWrite == GraphOps /\ \E a \in DOMAIN cl, x \in Targets :
     /\ ops < MaxOps /\ Len(cl[a].slots) = 1 /\ cl[a].slots[1] # x
     /\ cl' = [cl EXCEPT ![a].slots[1] = x]
     /\ last' = <<"Write", a>>
-    /\ wit' = [op |-> "Write", a |-> a, i |-> 1, x |-> x]
+    /\ wit' = [op |-> "Write", a |-> a, i |-> 1, x |-> x, tags |-> {"write"}]
     /\ ops' = ops + 1 /\ UNCHANGED <<s, roots>>
 
-ISetRoot == \E k \in 1..NRoots, x \in Targets :
+ISetRoot == GraphOps /\ \E k \in 1..NRoots, x \in Targets :
     /\ ops < MaxOps /\ roots[k] # x
     /\ roots' = [roots EXCEPT ![k] = x]
     /\ last' = <<"SetRoot", Null>>
-    /\ wit' = [op |-> "SetRoot", k |-> k, x |-> x]
+    /\ wit' = [op |-> "SetRoot", k |-> k, x |-> x, tags |-> {"setroot"}]
     /\ ops' = ops + 1 /\ UNCHANGED <<s, cl>>
 
 ICollect ==
@@ -508,7 +531,7 @@ ICollect ==
     /\ s' = st1
     /\ cl' = [a \in Busy(st1) |-> cl[a]]
     /\ last' = <<"Collect", Null>>
-    /\ wit' = [op |-> "Collect", S |-> Busy(st1)]
+    /\ wit' = [op |-> "Collect", S |-> Busy(st1), tags |-> CollectLabels(s, st1)]
     /\ ops' = ops + 1 /\ UNCHANGED roots
 
 Next == IAlloc \/ IFree \/ IResize \/ IRecode \/ IFill \/ IWrite \/ ISetRoot \/ ICollect
@@ -619,6 +642,8 @@ AuditMixed ==
     /\ (s.frontier # Null => s.frontier \in DOMAIN s.mx /\ ~s.mx[s.frontier].free)
 
 AuditInv == AuditPages /\ AuditFixed /\ AuditMixed
+
+ProbeInv == Probe \notin wit.tags
 
 (* values for configuration files (a .cfg cannot spell a sequence) *)
 FS12  == <<1, 2>>
